@@ -2,6 +2,7 @@
    The first part (which symbol a statement assigns, running a statement list through LdSem) is
    shared by the link-level theorems of C03, C10 and the *Link files. *)
 From Slinky Require Import Model.Types Model.Runtime Model.Style Model.Script Model.Writer Model.LdSem.
+From Slinky Require Import Spec.C18.
 Local Open Scope string_scope.
 
 (* ---------- which symbol a statement assigns ---------- *)
@@ -105,3 +106,32 @@ Fixpoint RomChain (sty : style) (st' : lstate) (r : Z) (segs : list segment) : P
 (* the names of all output sections of the emitted segments are pairwise different *)
 Definition out_names (segs : list segment) : list string :=
   flat_map (fun seg => [alloc_name seg; noload_name seg]) segs.
+
+(* ---------- sample data for the Examples (the document and run-time settings are those of Spec/C18.v) ---------- *)
+
+Definition ex_sections_body : list stmt :=
+  match add_all_segments ex_rt ex_settings cfg_normal (doc_vram_classes ex_doc) (doc_segments ex_doc) ws0 with
+  | Ok ([SSections body], _) => body
+  | _ => []
+  end.
+
+Definition ex_script : list stmt :=
+  match gen_normal ex_doc ex_rt with Ok w => wo_script w | Err _ => [] end.
+
+(* the input sections of two objects *)
+Definition ex_universe : list usec :=
+  [USec "build/src/boot.o" None ".text" 40 16 false "boot_text";
+   USec "build/src/boot.o" None ".data" 12 8 false "boot_data";
+   USec "build/src/boot.o" None ".bss" 100 8 true "boot_bss";
+   USec "build/src/a.o" None ".text" 24 4 false "a_text";
+   USec "build/src/a.o" None ".bss" 8 4 true "a_bss"].
+
+(* with a .mdebug section (allow-listed), a .reginfo section (denied) and a .comment section (caught by
+   the wildcard) *)
+Definition ex_universe_discard : list usec :=
+  [USec "build/src/boot.o" None ".text" 40 16 false "boot_text";
+   USec "build/src/boot.o" None ".mdebug" 20 4 false "boot_mdebug";
+   USec "build/src/boot.o" None ".reginfo" 24 4 false "boot_reginfo";
+   USec "build/src/a.o" None ".text" 24 4 false "a_text";
+   USec "build/src/a.o" None ".mdebug" 12 4 false "a_mdebug";
+   USec "build/src/a.o" None ".comment" 7 1 false "a_comment"].
